@@ -90,7 +90,7 @@ fn to_int(polys: &[Vec<[f64; 2]>]) -> Option<Vec<Vec<P>>> {
     for p in polys {
         let mut q = vec![];
         for v in p {
-            if !(v[0].is_finite() && v[1].is_finite()) || v[0].fract() != 0.0 || v[1].fract() != 0.0 || v[0].abs() > 1e6 || v[1].abs() > 1e6 { return None; }
+            if !(v[0].is_finite() && v[1].is_finite()) || v[0].fract() != 0.0 || v[1].fract() != 0.0 || v[0].abs() > 1073741824.0 || v[1].abs() > 1073741824.0 { return None; }
             q.push((v[0] as i64, v[1] as i64));
         }
         out.push(q);
@@ -219,9 +219,11 @@ fn variants(r: &mut Rng, base: &[Vec<[f64; 2]>], n: usize) -> Vec<Vec<Vec<[f64; 
     let mut out = vec![];
     for _ in 0..n {
         let d = r.below(8);
-        let sx = r.range(1, 3) as f64; let sy = r.range(1, 3) as f64;
+        // integer scalings, occasionally very anisotropic powers of two (exact in binary64; the oracle stays exact)
+        let (sx, sy) = match r.below(8) { 0 => (2f64.powi(r.range(10, 26) as i32), 1.0), 1 => (1.0, 2f64.powi(r.range(10, 26) as i32)), 2 => (2f64.powi(r.range(8, 20) as i32), 2f64.powi(r.range(8, 20) as i32)), _ => (r.range(1, 3) as f64, r.range(1, 3) as f64) };
+        let big = sx > 8.0 || sy > 8.0;
         let tx = r.range(-5, 5) as f64; let ty = r.range(-5, 5) as f64;
-        let shear = if r.chance(0.3) { r.range(-2, 2) as f64 } else { 0.0 };
+        let shear = if !big && r.chance(0.3) { r.range(-2, 2) as f64 } else { 0.0 };
         let mut set: Vec<Vec<[f64; 2]>> = base.iter().map(|p| {
             let mut q: Vec<[f64; 2]> = p.iter().map(|v| {
                 let (mut x, mut y) = (v[0], v[1]);
@@ -241,6 +243,28 @@ fn variants(r: &mut Rng, base: &[Vec<[f64; 2]>], n: usize) -> Vec<Vec<Vec<[f64; 
         out.push(set);
     }
     out
+}
+
+
+/// a random star-shaped polygon around (cx,cy): vertices sorted by angle (exact integer comparison)
+fn star_polygon(r: &mut Rng, cx: i64, cy: i64, rad: i64, n: usize) -> Vec<[f64; 2]> {
+    let mut pts: Vec<(i64, i64)> = vec![];
+    let mut tries = 0;
+    while pts.len() < n && tries < 200 { tries += 1; let p = (r.range(-rad, rad), r.range(-rad, rad)); if p != (0, 0) && !pts.contains(&p) { pts.push(p); } }
+    let half = |p: &(i64, i64)| if p.1 > 0 || (p.1 == 0 && p.0 > 0) { 0 } else { 1 };
+    pts.sort_by(|a, b| half(a).cmp(&half(b)).then_with(|| (b.0 * a.1 - a.0 * b.1).cmp(&0)).then_with(|| (a.0 * a.0 + a.1 * a.1).cmp(&(b.0 * b.0 + b.1 * b.1))));
+    pts.iter().map(|p| [(cx + p.0) as f64, (cy + p.1) as f64]).collect()
+}
+
+fn star_set(r: &mut Rng) -> Vec<Vec<[f64; 2]>> {
+    let mut set = vec![];
+    let n = r.range(4, 12) as usize;
+    let rad = *r.pick(&[3i64, 5, 8, 12]);
+    set.push(star_polygon(r, 0, 0, rad, n));
+    if r.chance(0.4) { let cy = r.range(-rad, rad); let m = r.range(3, 8) as usize; set.push(star_polygon(r, 3 * rad, cy, rad, m)); }
+    if r.chance(0.3) { let cx = r.range(-rad, rad); let m = r.range(3, 8) as usize; set.push(star_polygon(r, cx, 3 * rad, rad, m)); }
+    if r.chance(0.5) { let m = set.len(); if r.chance(0.5) { set[m - 1].reverse(); } }
+    set
 }
 
 fn random_soup(r: &mut Rng) -> Vec<Vec<[f64; 2]>> {
@@ -317,7 +341,8 @@ pub fn run(o: &Opts) -> Report {
         extra.push((name, base.clone()));
         for v in variants(&mut rng, &base, if o.thorough { 400 } else { 60 }) { extra.push((name, v)); }
     }
-    for _ in 0..(if o.thorough { 200000 } else { 20000 }) { extra.push(("soup", random_soup(&mut rng))); }
+    for _ in 0..(if o.thorough { 2000000 } else { 200000 }) { extra.push(("soup", random_soup(&mut rng))); }
+    for _ in 0..(if o.thorough { 400000 } else { 60000 }) { extra.push(("star", star_set(&mut rng))); }
     for _ in 0..(if o.thorough { 20000 } else { 3000 }) { extra.push(("special", special_coords(&mut rng))); }
     for _ in 0..(if o.thorough { 400000 } else { 60000 }) { extra.push(("extreme", extreme_lattice(&mut rng))); }
     extra.push(("empty", vec![]));
@@ -329,14 +354,14 @@ pub fn run(o: &Opts) -> Report {
             r.cases += 1;
             r.count(&format!("gen:{}", name));
             r.count(&format!("impl:{}", out.class()));
-            if *name != "soup" && *name != "special" && *name != "extreme" && r.samples.len() < 6 { r.sample(format!("{} {} -> {}", name, text(polys), out.class())); }
+            if *name != "soup" && *name != "special" && *name != "extreme" && *name != "star" && r.samples.len() < 6 { r.sample(format!("{} {} -> {}", name, text(polys), out.class())); }
         }
         judge(polys, &out, &rep, &counts);
         // coordinates whose differences overflow produce NaN ordinates/gradients; `f64::total_cmp` then
         // depends on the SIGN of the NaN, which Lean's `Float` cannot observe: such inputs are judged by
         // the implementation-side oracle (no panic, error classification) only
         let overflowing = polys.iter().flatten().any(|v| v[0].abs() > 8e307 || v[1].abs() > 8e307);
-        if !overflowing && ((*name != "soup" && *name != "extreme") || rng.chance(0.2)) { model_reqs.lock().unwrap().push((request(polys), out.wire(), text(polys))); }
+        if !overflowing && ((*name != "soup" && *name != "extreme" && *name != "star") || rng.chance(0.05)) { model_reqs.lock().unwrap().push((request(polys), out.wire(), text(polys))); }
     }
     let mut rep = rep.into_inner().unwrap();
     rep.nontrivial = counts.valid.load(Ordering::Relaxed) + counts.crossing.load(Ordering::Relaxed);
